@@ -138,6 +138,25 @@ def splice(rng, enc, other_identity):
     return bytes([num >> 4, ((num & 0xF) << 4) | (p[1] & 0x0F)]) + p[2:]
 
 
+def _pull(rdr, style):
+    """Messages of one round: style 0 = for loop (calls iter()), 1 = bare read() until (None, None), 2 = bare next()."""
+    if style == 0:
+        yield from rdr
+    elif style == 1:
+        while True:
+            raw, parsed = rdr.read()
+            if raw is None and parsed is None:
+                return
+            yield raw, parsed
+    else:
+        while True:
+            try:
+                item = next(rdr)
+            except StopIteration:
+                return
+            yield item
+
+
 def _stream(ctx, data, plan, mode, validate, pseed, backend, bparam):
     """Iterate / read a finite stream; observe exception types and the step budget."""
     from pyrtcm import RTCMReader
@@ -221,7 +240,11 @@ def _stream(ctx, data, plan, mode, validate, pseed, backend, bparam):
                 rounds += 1
                 try:
                     n = 0
-                    for _ in rdr:
+                    # three ways of pulling messages in the ignore / log modes: a for loop (iter() first), bare
+                    # read() calls and bare next() calls on a reader iter() was never called on
+                    style = (len(data) + pseed) % 3
+                    ctx.hit(f"pull_style_{style}_mode{mode}")
+                    for _ in _pull(rdr, style):
                         n += 1
                         if n > len(data) + 8:
                             ctx.violation("no-termination", "iterator delivers more items than bytes", params)
